@@ -557,7 +557,8 @@ def summarize_report(failure):
     if kind == "ubsan":
         m = re.search(r"(\S+):\d+:\d+: runtime error: (.*)", rep)
         if m:
-            msg = re.sub(r"-?\d+", "N", m.group(2))[:90]
+            msg = re.sub(r"-?\d+", "N", m.group(2))
+            msg = re.sub(r"type '[^']+'", "type 'T'", msg)[:90]  # int / long / ...: the width of the value type, not a mechanism
             return kind, "%s @%s in %s" % (msg, os.path.basename(m.group(1)), generated_frame(rep))
     if kind == "asan":
         m = re.search(r"AddressSanitizer: (\S+)", rep)
